@@ -8,7 +8,7 @@ with failures = [(clause, detail, case_json)].  The semantic oracle therefore li
 target; a failure does not stop the campaign: the first case per clause is written to
 <out dir>/fail-<n>.json at once (atexit handlers do not run under libFuzzer) and the
 search goes on, so a shallow defect cannot hide a deeper one.  Counters go to
-<out dir>/stats.json every 5000 executions and at the last execution that is reached."""
+<out dir>/stats.json every VERIF_FUZZ_FLUSH (default 5000) executions and at the last execution that is reached."""
 import importlib
 import json
 import os
@@ -20,6 +20,8 @@ sys.path.append(os.path.join(HERE, '.deps'))
 os.environ.setdefault('PYTHONHASHSEED', '0')
 
 import atheris  # noqa: E402
+
+FLUSH_EVERY = int(os.environ.get('VERIF_FUZZ_FLUSH', '5000'))
 
 
 def main():
@@ -56,7 +58,7 @@ def main():
                 with open(os.path.join(outdir, 'fail-%d.json' % len(stats['failure_counts'])), 'w') as f:
                     json.dump({'clause': clause, 'detail': detail, 'case': case}, f)
                 flush()
-        if stats['executions'] % 5000 == 0:
+        if stats['executions'] % FLUSH_EVERY == 0:
             flush()
 
     atheris.Setup(argv, one)
